@@ -35,6 +35,7 @@ vars == <<ns, sess, pend, prelay, lastOwn, duty, l, skip>>
 
 SeqSet(s) == {s[i] : i \in 1..Len(s)}
 E == Trace[l]
+DieMark == 999999   \* element of `duty` meaning "this instance must shut down" (epoch ranks are small numbers)
 
 NoU == Update("", "", 0, 0, EmptyF, "", 0)
 
@@ -54,7 +55,7 @@ Keep == UNCHANGED <<ns, sess, pend, prelay, lastOwn, duty>>
 IsEv(e) == l <= Len(Trace) /\ E.ev = e
 
 \* a node that learnt it is the later duplicate must have shut down by the end of its trace
-Unpaid == IF skip THEN {} ELSE (IF "die" \in duty /\ ns.alive THEN {"duplicate_did_not_shut_down"} ELSE {})
+Unpaid == IF skip THEN {} ELSE (IF DieMark \in duty /\ ns.alive THEN {"duplicate_did_not_shut_down"} ELSE {})
 
 TReset == /\ IsEv("reset")
           /\ (IF Unpaid = {} THEN TRUE ELSE PrintT(<<"DIFF", l, "end_of_instance", Unpaid>>))
@@ -147,7 +148,7 @@ TSessEnd == /\ Live("sess_end")
 TRuSelf ==
   /\ Live("ru_self")
   /\ duty' = IF E.epoch = ns.epoch THEN duty
-             ELSE IF E.susp = ns.epoch THEN duty \cup {"die"}
+             ELSE IF E.susp = ns.epoch THEN duty \cup {DieMark}
              ELSE IF E.epoch > ns.epoch /\ ns.conn # EmptyF THEN duty \cup {E.epoch}
              ELSE duty
   /\ UNCHANGED <<ns, sess, pend, prelay, lastOwn>> /\ Advance({})
@@ -156,6 +157,12 @@ TRuSeen ==
   /\ Live("ru_seen")
   /\ LET d == IF E.hit # (E.id \in ns.seen) THEN {"seen_hit"} ELSE {}
      IN /\ ns' = [ns EXCEPT !.seen = @ \cup {E.id}]
+        /\ UNCHANGED <<sess, pend, prelay, lastOwn, duty>> /\ Advance(d)
+
+TSeenExpire ==
+  /\ Live("seen_expire")
+  /\ LET d == IF E.id \notin ns.seen THEN {"expired_id_was_not_seen"} ELSE {}
+     IN /\ ns' = [ns EXCEPT !.seen = @ \ {E.id}]
         /\ UNCHANGED <<sess, pend, prelay, lastOwn, duty>> /\ Advance(d)
 
 TRuDup ==
@@ -202,7 +209,7 @@ TMkUpdate ==
               \cup (IF E.conns # ns.conn THEN {"conns"} ELSE {})
               \cup (IF E.susp # 0 /\ E.susp \notin duty THEN {"duplicate_notice_without_cause"} ELSE {})
      IN /\ ns' = [ns EXCEPT !.seq = E.seq] /\ lastOwn' = lastOwn \cup {E.id}
-        /\ duty' = duty \ {E.susp}
+        /\ duty' = duty          \* several sessions may each have seen the newer epoch: the cause stays on record
         /\ UNCHANGED <<sess, pend, prelay>> /\ Advance(d)
 
 TRebuild ==
@@ -229,7 +236,7 @@ THStatus ==
 
 TNext == TReset \/ Skipped \/ TSessStart \/ TRecv \/ TReject \/ TConnAdd \/ TKnownAdd \/ TEstablished \/ TConnDel
          \/ TKnownDel \/ TSessEnd \/ TRuSelf \/ TRuSeen \/ TRuDup \/ TRuApply \/ TFlood \/ TMkUpdate \/ TRebuild
-         \/ TShutdown \/ TOther \/ THStatus
+         \/ TShutdown \/ TOther \/ THStatus \/ TSeenExpire
 
 TSpec == TInit /\ [][TNext]_vars
 
